@@ -12,6 +12,8 @@ import (
 	"os"
 	"runtime/debug"
 	"sort"
+	"strconv"
+	"strings"
 	"sync/atomic"
 	"time"
 )
@@ -99,7 +101,7 @@ type R struct {
 
 func newR(prop string) *R {
 	return &R{Outcomes: map[string]int64{}, Maxima: map[string]float64{}, Counters: map[string]int64{},
-		keyset: map[uint64]struct{}{}, KnownHits: map[int]int64{}, prop: prop, vioCap: 3000, vioSeen: map[string]int{}, Exhaustive: true}
+		keyset: map[uint64]struct{}{}, KnownHits: map[int]int64{}, prop: prop, vioCap: envInt("VERIF_VIOCAP", 3000), vioSeen: map[string]int{}, Exhaustive: true}
 }
 
 // NewR returns a standalone accumulator (used by tests of the harness itself).
@@ -191,6 +193,22 @@ func (r *R) finish() {
 // watchdog state
 var caseStart atomic.Int64 // monotonic nanoseconds since procStart (+1), 0 = no case running
 var procStart = time.Now()
+
+// memLimit: how much the resident set may grow while one case runs
+var memLimit = int64(envInt("VERIF_MEM_MB", 2048)) << 20
+
+func residentBytes() int64 {
+	b, err := os.ReadFile("/proc/self/statm")
+	if err != nil {
+		return 0
+	}
+	f := strings.Fields(string(b))
+	if len(f) < 2 {
+		return 0
+	}
+	n, _ := strconv.ParseInt(f[1], 10, 64)
+	return n * int64(os.Getpagesize())
+}
 var caseLabel atomic.Value
 
 // RunCase runs one case of a family under recover and the hang watchdog.
@@ -227,21 +245,36 @@ func Worker(p *Property, tier string, shard, n int, out string, deadline time.Ti
 		os.WriteFile(tmp, b, 0o644)
 		os.Rename(tmp, out)
 	}
-	// watchdog: a case that runs longer than hangLimit is reported as non-terminating
+	// watchdog: a case that runs longer than hangLimit is reported as non-terminating, a case during
+	// which the process grows by more than memLimit as exhausting memory (the sandbox has no memory
+	// limit: one runaway case would otherwise take the whole machine down)
 	go func() {
+		abort := func(kind string) {
+			lbl, _ := caseLabel.Load().(string)
+			h := newR(p.ID)
+			h.Exhaustive = false
+			h.Notes = []string{kind + " " + lbl}
+			b, _ := json.Marshal(h)
+			os.WriteFile(out+".hang", b, 0o644)
+			os.Exit(3)
+		}
+		var lastSt, base int64
 		for {
-			time.Sleep(200 * time.Millisecond)
+			time.Sleep(50 * time.Millisecond)
 			st := caseStart.Load()
-			if st != 0 && time.Since(procStart)-time.Duration(st) > hangLimit { // monotonic: a wall-clock step cannot fake a hang
-				lbl, _ := caseLabel.Load().(string)
-				r.Notes = append(r.Notes, "HANG "+lbl)
-				// cannot touch r safely beyond this; write a minimal hang record
-				h := newR(p.ID)
-				h.Exhaustive = false
-				h.Notes = []string{"HANG " + lbl}
-				b, _ := json.Marshal(h)
-				os.WriteFile(out+".hang", b, 0o644)
-				os.Exit(3)
+			if st == 0 {
+				lastSt = 0
+				continue
+			}
+			if st != lastSt {
+				lastSt, base = st, residentBytes()
+				continue
+			}
+			if time.Since(procStart)-time.Duration(st) > hangLimit { // monotonic: a wall-clock step cannot fake a hang
+				abort("HANG")
+			}
+			if residentBytes()-base > memLimit {
+				abort("MEM")
 			}
 		}
 	}()
